@@ -5,6 +5,8 @@ import (
 	"fmt"
 	"io"
 	"io/fs"
+	"os"
+	"path/filepath"
 	"strings"
 	"testing/fstest"
 	"time"
@@ -54,6 +56,29 @@ func c18Layer(idx int, sh c18Shape) fstest.MapFS {
 		file("d-/x")
 	}
 	return m
+}
+
+// the same layer materialised on disk and served by os.DirFS: a real file system answers "not a directory"
+// (not fs.ErrNotExist) for a path below a regular file, and reports its own sizes and modes for directories
+func c18Disk(root string, idx int, m fstest.MapFS) fs.FS {
+	_ = os.MkdirAll(root, 0o755)
+	mt := time.Unix(int64(1000+idx*100), 0)
+	for p, f := range m {
+		full := filepath.Join(root, filepath.FromSlash(p))
+		if f.Mode.IsDir() {
+			_ = os.MkdirAll(full, 0o755)
+			continue
+		}
+		_ = os.MkdirAll(filepath.Dir(full), 0o755)
+		_ = os.WriteFile(full, f.Data, 0o644)
+	}
+	_ = filepath.Walk(root, func(p string, info os.FileInfo, err error) error {
+		if err == nil {
+			_ = os.Chtimes(p, mt, mt)
+		}
+		return nil
+	})
+	return os.DirFS(root)
 }
 
 func c18Info(f fs.FS, p string) (string, bool, bool) { // data, isDir, ok
@@ -176,11 +201,20 @@ func runC18(r *Run) {
 	nShapes := len(shapes) // index nShapes = nil layer
 	var pre strings.Builder
 	layerFS := make([][]fstest.MapFS, 3)
+	diskFS := make([][]fs.FS, 3)
+	tmp, terr := os.MkdirTemp("", "verif-c18-")
+	if terr != nil {
+		panic(terr)
+	}
+	defer os.RemoveAll(tmp)
 	for pos := 0; pos < 3; pos++ {
 		layerFS[pos] = make([]fstest.MapFS, nShapes)
+		diskFS[pos] = make([]fs.FS, nShapes)
 		for i, sh := range shapes {
 			layerFS[pos][i] = c18Layer(pos, sh)
 			pre.WriteString(fmt.Sprintf("Definition l%d_%d := %s.\n", pos, i, c18LayerCoq(layerFS[pos][i])))
+			diskFS[pos][i] = c18Disk(filepath.Join(tmp, fmt.Sprintf("l%d_%d", pos, i)), pos, layerFS[pos][i])
+			pre.WriteString(fmt.Sprintf("Definition k%d_%d := %s.\n", pos, i, c18LayerCoq(diskFS[pos][i])))
 		}
 	}
 	r.Prelude = pre.String()
@@ -209,8 +243,15 @@ func runC18(r *Run) {
 				desc = append(desc, nil)
 				continue
 			}
-			fss = append(fss, layerFS[pos][si])
-			names = append(names, fmt.Sprintf("l%d_%d", pos, si))
+			if r.Rng.Intn(3) == 0 { // this layer is a directory on disk
+				fss = append(fss, diskFS[pos][si])
+				names = append(names, fmt.Sprintf("k%d_%d", pos, si))
+				r.Count("layer:os.DirFS")
+			} else {
+				fss = append(fss, layerFS[pos][si])
+				names = append(names, fmt.Sprintf("l%d_%d", pos, si))
+				r.Count("layer:fstest.MapFS")
+			}
 			for _, p := range c18Opens {
 				if _, _, ok := c18Info(layerFS[pos][si], p); ok && p != "." {
 					present[p]++
@@ -321,5 +362,5 @@ func runC18(r *Run) {
 		}
 		emit([]int{nShapes, nShapes})
 	}
-	r.Assume("each layer is an fstest.MapFS; the model takes each layer's own answers on the queried universe as given")
+	r.Assume("each layer is an fstest.MapFS or the same tree on disk served by os.DirFS; the model takes each layer's own answers on the queried universe as given")
 }
